@@ -333,7 +333,7 @@ func (n *NEO) Initialize(ic *interop.Context, hf *config.Hardfork, newMD *intero
 
 	committee0 := n.standbyKeys[:n.cfg.GetCommitteeSize(ic.Block.Index)]
 	cvs := toKeysWithVotes(committee0)
-	err := n.updateCache(cache, cvs, ic.BlockHeight())
+	err := n.updateCache(cache, cvs, n.cfg.GetNumOfCNs(ic.Block.Index))
 	if err != nil {
 		return err
 	}
@@ -380,7 +380,12 @@ func (n *NEO) InitializeCache(_ interop.IsHardforkEnabled, blockHeight uint32, d
 	if err := committee.DecodeBytes(si); err != nil {
 		return fmt.Errorf("failed to decode committee: %w", err)
 	}
-	if err := n.updateCache(cache, committee, blockHeight); err != nil {
+	// The validators of the next block were installed by the latest committee
+	// update (or by genesis), i.e. their number is the one configured for the
+	// current height even if it changes starting from the next block: that block
+	// is still to be signed by the old validators (and the stored committee is
+	// the old one too, it may be smaller than the new number of validators).
+	if err := n.updateCache(cache, committee, n.cfg.GetNumOfCNs(blockHeight)); err != nil {
 		return fmt.Errorf("failed to update cache: %w", err)
 	}
 
@@ -420,7 +425,7 @@ func (n *NEO) initConfigCache(cfg config.ProtocolConfiguration) error {
 	return err
 }
 
-func (n *NEO) updateCache(cache *NeoCache, cvs keysWithVotes, blockHeight uint32) error {
+func (n *NEO) updateCache(cache *NeoCache, cvs keysWithVotes, numOfCNs int) error {
 	cache.committee = cvs
 
 	var committee = getCommitteeMembers(cache.committee)
@@ -430,7 +435,7 @@ func (n *NEO) updateCache(cache *NeoCache, cvs keysWithVotes, blockHeight uint32
 	}
 	cache.committeeHash = hash.Hash160(script)
 
-	nextVals := committee[:n.cfg.GetNumOfCNs(blockHeight+1)].Copy()
+	nextVals := committee[:numOfCNs].Copy()
 	slices.SortFunc(nextVals, (*keys.PublicKey).Cmp)
 	cache.nextValidators = nextVals
 	return nil
